@@ -117,3 +117,37 @@ pub fn genesis_configs(out: &mut crate::Out, tag: &str) {
         }
     }
 }
+
+/// Round heights: one lineage carried (by fabricated jumps) to every power of two from 2^8 to 2^21, their neighbours and a few multiples of
+/// 4096 / 10^5, in ascending order, with two sealed blocks at each: whatever a node keeps in tables that grow with the height
+/// (the DOSC inflator table) is exercised exactly at the sizes where chunked or doubling growth has its edges.
+pub fn round_heights(out: &mut crate::Out, tag: &str, seed: u64) {
+    let mut d = Driver::new(out, tag, seed, NetID::Custom02, 200, Denom::Mel, 1u128 << 60, 1 << 40, BTreeMap::new());
+    d.wal.simple = true;
+    let mut sealed = d.seal_next(Some(false)).unwrap();
+    let mut hs: Vec<u64> = vec![];
+    for k in 8..=21u32 {
+        let p = 1u64 << k;
+        hs.extend([p - 1, p, p + 1]);
+    }
+    hs.extend([3 * 4096, 5 * 4096, 10_000, 100_000, 1_000_000, 3 * 65536, 3 * 1_048_576 - 200_000]);
+    hs.sort();
+    hs.dedup();
+    for h in hs {
+        if h < 3 || h > 2_990_000 {
+            continue;
+        }
+        let j = d.w.jump(sealed, h - 1);
+        d.cur = d.w.next(j);
+        d.block_start = d.cur;
+        d.block_batches.clear();
+        step(&mut d);
+        match d.seal_next(Some(true)) {
+            Some(s) => sealed = s,
+            None => continue,
+        }
+        if let Some(s) = d.seal_next(Some(false)) {
+            sealed = s;
+        }
+    }
+}
